@@ -15,6 +15,14 @@ CLAIMED["C10"] = dict(engine="clisim", design="DESIGN.md §5 C10, §4 E-B, Appen
    text="Seeded search over (crash point x occurrence x tx-mode x directory shape x restart-before/after-lease-expiry x second crash) against the real CLI binary and a real SQLite file; SIGKILL at build-tagged points; oracle = never-ahead, per-mode atomicity, at-most-one-in-flight, multiplicity and bounded liveness checked by an independent SQLite observer after every crash and at completion. Sampling, not enumeration.",
    note="Crash = SIGKILL (no power-loss model); SQLite's journal recovery is trusted; lease time is simulated by rewriting the lease file.",
    technique="deterministic simulation: crash injection at hook points in the real CLI process, seeded crash/restart schedules, state invariants by independent observer, tape shrinking + exact replay")
+CLAIMED["C12"] = dict(engine="execsim", design="DESIGN.md §5 C12",
+   text="Seeded search over (file length x failure position that creates the partial state x edit kind x edit position, incl. truncation below the applied count) against the real Executor; the partial revision is produced by an injected statement fault; oracle = refused-cleanly / resumes-with-new-tail / never-panics, plus quiescence of the following run.",
+   note="Stub database and revision store; real Executor, MemDir, hashing and scanner. The CLI half (real SQLite, exit status instead of recover) is part clisim-c12 when present in the evidence.",
+   technique="deterministic simulation: fault-produced partial history + seeded edit sequences, reference oracle, tape shrinking + exact replay")
+CLAIMED["C13"] = dict(engine="clisim", design="DESIGN.md §5 C13, Appendix B",
+   text="Seeded search over (failing statement position x global tx-mode x per-file txmode directives x count argument x earlier applies) against the real CLI and a real SQLite file; oracle = whole-state equality (schema + every row + revision rows minus label columns, read by an independent observer) with the per-mode state model of Appendix B, then fix + re-hash + re-run must equal a fault-free run.",
+   note="'no revision table' == 'empty revision table'; label columns are not compared; SQLite only.",
+   technique="deterministic simulation: injected statement failures in the real CLI process, state-model refinement by independent observer, tape shrinking + exact replay")
 
 NOT_BUILT = {
  "C01": "not built yet in this tree (planned claim, DESIGN \u00a75); listed here so that every unclaimed property has an entry",
@@ -56,7 +64,7 @@ def main():
             "level_note": c["note"],
             "technique": c["technique"],
         })
-    na = [{"property_id": k, "reason": v} for k, v in sorted({**NA, **NOT_BUILT}.items())]
+    na = [{"property_id": k, "reason": v} for k, v in sorted({**NA, **NOT_BUILT}.items()) if k not in CLAIMED]
     hooks_commits = []
     try:
         out = subprocess.run(["git", "-C", "/repo", "log", "--format=%H %s"], capture_output=True, text=True).stdout
